@@ -87,6 +87,11 @@ class C14(Check):
             js.append(dict(kind='track2', base=base))
             js.append(dict(kind='rebase', base=base))
         js.append(dict(kind='wgs84'))
+        # scale probes: long tracks (fixed positions except observations 1 and n-2), near bases with far points
+        for n in ([33] if tier == 'quick' else [31, 32, 33, 64, 200]):
+            for conv in ('geo2ecef', 'ecef2enu', 'enu2ecef', 'geo2enu'):
+                js.append(dict(kind='long', n=n, conv=conv))
+        js.append(dict(kind='nearbase'))
         return js
 
     def patches(self, job):
@@ -99,6 +104,25 @@ class C14(Check):
         if kind == 'ecef':
             return oc.ECEFCoords(g('bX', -7e6, 7e6), g('bY', -7e6, 7e6), g('bZ', -7e6, 7e6))
         return oc.GeoCoords(g('blon', -180, 180), g('blat', -89.9, 89.9), g('bh', -1000, 10000))
+
+    def _long_points(self, eng, inp, n):
+        """n geographic points along a climbing route (heights 150..900 m) and n ECEF points; observations 1 and n-2 are symbolic"""
+        oc = sys.modules[COORDS]
+        geo, ecef = [], []
+        for i in range(n):
+            if i in (1, n - 2):
+                if inp is None:
+                    lon, lat, h = eng.real('lon%d' % i, 2.0, 3.0), eng.real('lat%d' % i, 48.0, 49.0), eng.real('h%d' % i, 100, 9000)
+                    x, y, z = eng.real('x%d' % i, 4.19e6, 4.21e6), eng.real('y%d' % i, 1.6e5, 1.8e5), eng.real('z%d' % i, 4.77e6, 4.79e6)
+                else:
+                    lon, lat, h = float(inp['lon%d' % i]), float(inp['lat%d' % i]), float(inp['h%d' % i])
+                    x, y, z = float(inp['x%d' % i]), float(inp['y%d' % i]), float(inp['z%d' % i])
+            else:
+                lon, lat, h = 2.25 + 0.003125 * i, 48.75 + 0.001953125 * ((i * 7) % 11), 150.0 + 23.5 * ((i * 5) % 33)
+                x, y, z = 4.2e6 + 250.0 * i, 1.7e5 - 125.5 * ((i * 3) % 17), 4.78e6 + 75.25 * ((i * 11) % 13)
+            geo.append(oc.GeoCoords(lon, lat, h))
+            ecef.append(oc.ECEFCoords(x, y, z))
+        return geo, ecef
 
     def path(self, ctx, job):
         eng = ctx.eng
@@ -134,7 +158,7 @@ class C14(Check):
                     if not ctx.prove(z3.And(a - b <= tol, b - a <= tol), 'the Earth-centred %s coordinate agrees with the closed-form WGS84 formula' % nm):
                         return
                 return
-            base = self._base(eng, None, job['base'])
+            base = self._base(eng, None, job['base']) if 'base' in job else None
             if kind == 'rt_ecef':
                 x, y, z = eng.real('x', -7e6, 7e6), eng.real('y', -7e6, 7e6), eng.real('z', -7e6, 7e6)
                 enu = oc.ECEFCoords(x, y, z).toENUCoords(base)
@@ -165,7 +189,7 @@ class C14(Check):
                 mid = tr.getObs(0).position
                 tr.toENUCoords(base2)
                 ctx.reach()
-                w = mid.toENUCoords(old, base2)
+                w = mid.toECEFCoords(old).toENUCoords(base2)      # via the Earth-centred frame: independent of ENUCoords.toENUCoords(base1, base2)
                 g = tr.getObs(0).position
                 if not ctx.prove(z3.And(zreal(g.E) == zreal(w.E), zreal(g.N) == zreal(w.N), zreal(g.U) == zreal(w.U)),
                                  're-basing a local track applies the point conversion from the recorded base to the new base'):
@@ -176,6 +200,60 @@ class C14(Check):
                     ctx.fail('the track does not record the (geographic) base it used')
                     return
                 ctx.prove(z3.And(zreal(rb.lon) == zreal(bg.lon), zreal(rb.lat) == zreal(bg.lat), zreal(rb.hgt) == zreal(bg.hgt)), 'after re-basing the track records the new base')
+                return
+            if kind == 'nearbase':
+                # ENU -> ENU re-basing between two bases a few metres apart, of points tens of kilometres away
+                from tracklib.core import Track, Obs, ObsTime
+                b1 = oc.GeoCoords(2.0, 48.0, 100.0)
+                b2 = oc.GeoCoords(2.0 + eng.real('dlon', -1e-4, 1e-4), 48.0 + eng.real('dlat', -1e-4, 1e-4), 100.0 + eng.real('dh', -5, 5))
+                pts = [(eng.real('e', -1e5, 1e5), eng.real('n', -1e5, 1e5), eng.real('u', -1000, 1000)), (25000.0, -18000.0, 40.0)]
+                tr = Track([Obs(oc.ENUCoords(*p), ObsTime.readUnixTime(float(i))) for i, p in enumerate(pts)], base=b1)
+                tr.toENUCoords(b2)
+                ctx.reach()
+                for i, p in enumerate(pts):
+                    w = oc.ENUCoords(*p).toECEFCoords(b1).toENUCoords(b2)
+                    g = tr.getObs(i).position
+                    if not ctx.prove(z3.And(zreal(g.E) == zreal(w.E), zreal(g.N) == zreal(w.N), zreal(g.U) == zreal(w.U)),
+                                     're-basing between near bases applies the exact conversion through the Earth-centred frame'):
+                        return
+                return
+            if kind == 'long':
+                from tracklib.core import Track, Obs, ObsTime
+                n, conv = job['n'], job['conv']
+                geo, ecef = self._long_points(eng, None, n)
+                base = oc.GeoCoords(2.3, 48.8, 60.0)
+                src = geo if conv.startswith('geo') else ecef
+                tr = Track([Obs(p.copy(), ObsTime.readUnixTime(float(i))) for i, p in enumerate(src)])
+                if conv == 'geo2ecef':
+                    tr.toECEFCoords()
+                    want = [p.toECEFCoords() for p in geo]
+                    names = ('X', 'Y', 'Z')
+                elif conv == 'geo2enu':
+                    tr.toENUCoords(base)
+                    want = [p.toENUCoords(base) for p in geo]
+                    names = ('E', 'N', 'U')
+                elif conv == 'ecef2enu':
+                    tr.toENUCoords(base)
+                    want = [p.toENUCoords(base) for p in ecef]
+                    names = ('E', 'N', 'U')
+                else:
+                    tr.toENUCoords(base)
+                    mid = [tr.getObs(i).position.copy() for i in range(n)]
+                    tr.toECEFCoords()
+                    want = [p.toECEFCoords(base) for p in mid]
+                    names = ('X', 'Y', 'Z')
+                ctx.reach()
+                if tr.size() != n:
+                    ctx.fail('a whole-track conversion changed the number of observations')
+                    return
+                for i in range(n):
+                    g = tr.getObs(i).position
+                    if type(g).__name__ != type(want[i]).__name__:
+                        ctx.fail('a whole-track conversion left an observation in another coordinate system')
+                        return
+                    if not ctx.prove(z3.And([zreal(getattr(g, a)) == zreal(getattr(want[i], a)) for a in names]),
+                                     'a whole-track conversion of a long track applies the point conversion to every observation'):
+                        return
                 return
             if kind == 'track2':
                 # a history: project, go back to ECEF with the recorded base, project again with ANOTHER base; the base recorded at
@@ -248,6 +326,55 @@ class C14(Check):
                 w = closed_form(lon, lat, h)
                 if max(abs(p.X - w[0]), abs(p.Y - w[1]), abs(p.Z - w[2])) > 1e-4:
                     return dict(violation='GeoCoords(%r, %r, %r).toECEFCoords() = (%r, %r, %r), closed-form WGS84 gives %r' % (lon, lat, h, p.X, p.Y, p.Z, w))
+                return dict(violation=None, outputs={})
+            if kind == 'nearbase':
+                from tracklib.core import Track, Obs, ObsTime
+                b1 = oc.GeoCoords(2.0, 48.0, 100.0)
+                b2 = oc.GeoCoords(2.0 + float(inp['dlon']), 48.0 + float(inp['dlat']), 100.0 + float(inp['dh']))
+                pts = [(float(inp['e']), float(inp['n']), float(inp['u'])), (25000.0, -18000.0, 40.0)]
+                tr = Track([Obs(oc.ENUCoords(*p), ObsTime.readUnixTime(float(i))) for i, p in enumerate(pts)], base=b1)
+                tr.toENUCoords(b2)
+                e1, e2 = b1.toECEFCoords(), b2.toECEFCoords()
+                for i, p in enumerate(pts):
+                    # independent reference: transpose of the base-1 rotation, then the base-2 rotation
+                    lam, phi = math.radians(b1.lon), math.radians(b1.lat)
+                    E, N, U = p
+                    dx = -math.sin(lam) * E - math.sin(phi) * math.cos(lam) * N + math.cos(phi) * math.cos(lam) * U
+                    dy = math.cos(lam) * E - math.sin(phi) * math.sin(lam) * N + math.cos(phi) * math.sin(lam) * U
+                    dz = math.cos(phi) * N + math.sin(phi) * U
+                    w = rot_enu(e1.X + dx, e1.Y + dy, e1.Z + dz, (e2.X, e2.Y, e2.Z), b2.lon, b2.lat)
+                    g = tr.getObs(i).position
+                    if max(abs(g.E - w[0]), abs(g.N - w[1]), abs(g.U - w[2])) > 1e-3:
+                        return dict(violation='re-basing %r from %s to %s gives (%r, %r, %r), the rotations through the Earth-centred frame give %r' % (p, b1, b2, g.E, g.N, g.U, w))
+                return dict(violation=None, outputs={})
+            if kind == 'long':
+                from tracklib.core import Track, Obs, ObsTime
+                n, conv = job['n'], job['conv']
+                geo, ecef = self._long_points(None, inp, n)
+                base = oc.GeoCoords(2.3, 48.8, 60.0)
+                be = base.toECEFCoords()
+                src = geo if conv.startswith('geo') else ecef
+                tr = Track([Obs(p.copy(), ObsTime.readUnixTime(float(i))) for i, p in enumerate(src)])
+                if conv == 'geo2ecef':
+                    tr.toECEFCoords()
+                    want = [closed_form(p.lon, p.lat, p.hgt) for p in geo]
+                elif conv == 'geo2enu':
+                    tr.toENUCoords(base)
+                    want = [rot_enu(*closed_form(p.lon, p.lat, p.hgt), (be.X, be.Y, be.Z), base.lon, base.lat) for p in geo]
+                elif conv == 'ecef2enu':
+                    tr.toENUCoords(base)
+                    want = [rot_enu(p.X, p.Y, p.Z, (be.X, be.Y, be.Z), base.lon, base.lat) for p in ecef]
+                else:
+                    tr.toENUCoords(base)
+                    tr.toECEFCoords()
+                    want = [(p.X, p.Y, p.Z) for p in ecef]
+                if tr.size() != n:
+                    return dict(violation='%s of a %d-observation track returned %d observations' % (conv, n, tr.size()))
+                for i in range(n):
+                    g = tr.getObs(i).position
+                    got = (g.getX(), g.getY(), g.getZ())
+                    if max(abs(a - b) for a, b in zip(got, want[i])) > 1e-3:
+                        return dict(violation='%s of a %d-observation track: observation %d (%s) became %r, the point conversion gives %r' % (conv, n, i, src[i], got, want[i]))
                 return dict(violation=None, outputs={})
             base = self._base(None, inp, job['base'])
             bgeo = base.toGeoCoords()
